@@ -40,4 +40,10 @@ def cases(seed=0, n=6):
         out.append({'id': f'viewstore-{how}', 'fn': 'np_view_store', 'how': how})
     for k, (vals, pre, post) in enumerate((([0, 1, 1, 0, 1], 0, None), ([1, 1, 0], 0, 0), ([3, 5, 4], None, None), ([0, 0, 1], None, 0), ([1], 0, None))):
         out.append({'id': f'diff{k}', 'fn': 'np_diff', 'vals': vals, 'prepend': pre, 'append': post})
+    # a[mask, :n] / a[:n, mask]: one boolean mask with basic slices on the other axes
+    for k, (mask, axis, stop) in enumerate((([True, False, True], 0, 2), ([False, False, False], 0, 1), ([True, True, False, True], 1, 2), ([False, True, True], 0, 4))):
+        out.append({'id': f'maskslice{k}', 'fn': 'np_mask_slice', 'mask': mask, 'axis': axis, 'stop': stop})
+    # a[lo:hi] = rows / scalar (NP-SLICE-STORE)
+    for k, (lo, hi, val) in enumerate(((1, 3, [[7, 8], [9, 10]]), (0, 1, [[5, 6]]), (2, 2, 4), (None, 2, -1), (1, None, [[3, 3]]), (-2, None, [[1, 2], [3, 4]]))):
+        out.append({'id': f'slicestore{k}', 'fn': 'np_slice_store', 'lo': lo, 'hi': hi, 'val': val})
     return out
